@@ -73,6 +73,13 @@ func round(s *slip.Scope, f slip.Object, args slip.List, depth int) slip.Values 
 	switch tn := num.(type) {
 	case slip.Fixnum:
 		d := div.(slip.Fixnum)
+		if tn == math.MinInt64 && d == -1 {
+			// The one quotient of fixnums that is not a fixnum.
+			var z big.Int
+			q = (*slip.Bignum)(z.Neg(big.NewInt(int64(tn))))
+			r = slip.Fixnum(0)
+			break
+		}
 		q = tn / d
 		r = tn - q.(slip.Fixnum)*d
 		if r == slip.Fixnum(0) {
